@@ -7,6 +7,7 @@ package zap
 
 import (
 	"encoding/binary"
+	"hash/crc32"
 	"io"
 )
 
@@ -619,3 +620,97 @@ func lemma1HitDiscriminator(docNum, normBits uint64) {
 //@ propagates err from mergeAndPersistSynonymSection [C17,C18]
 //@ modifies *, ghost chanClosed[closeCh], ghost bm64Empty
 //@ end
+
+// ---- C04: footer round trip (emitted footer parsed back, composed on the real functions) ----
+
+// verifSink is an in-memory writer used by lemma harnesses.
+type verifSink struct{ buf []byte }
+
+func (s *verifSink) Write(p []byte) (int, error) {
+	s.buf = append(s.buf, p...)
+	return len(p), nil
+}
+
+//@ func (*verifSink).Write returns (n, err)
+//@ requires s != nil
+//@ ensures n == len(p) && err == nil
+//@ ensures len(s.buf) == old(len(s.buf)) + len(p)
+//@ ensures len(p) == 8 ==> be64(row(s.buf), off(s.buf) + old(len(s.buf))) == old(be64(row(p), off(p)))
+//@ ensures len(p) == 4 ==> be32(row(s.buf), off(s.buf) + old(len(s.buf))) == old(be32(row(p), off(p)))
+//@ ensures forall R row8, a int :: {be64(R, a)} R == row(s.buf) && off(s.buf) <= a && a + 8 <= off(s.buf) + old(len(s.buf)) ==> be64(R, a) == be64(old(row(s.buf)), a - off(s.buf) + old(off(s.buf)))
+//@ ensures forall R row8, a int :: {be32(R, a)} R == row(s.buf) && off(s.buf) <= a && a + 4 <= off(s.buf) + old(len(s.buf)) ==> be32(R, a) == be32(old(row(s.buf)), a - off(s.buf) + old(off(s.buf)))
+//@ ensures forall r ref :: {row8of(r)} r != base(s.buf) ==> row8of(r) == old(row8of(r))
+//@ ensures base(s.buf) == old(base(s.buf)) || fresh(s.buf)
+//@ modifies verifSink.buf[s], elems(uint8), alloc
+//@ tags [C04]
+//@ end
+
+//@ lemma lemmaBeFrame
+//@ mode bv
+//@ tags [C04,C09]
+//@ requires 0 <= o && o <= 0x1000000000000000 && 0 <= p && p <= 0x1000000000000000
+//@ requires a[o] == b[p] && a[o+1] == b[p+1] && a[o+2] == b[p+2] && a[o+3] == b[p+3] && a[o+4] == b[p+4] && a[o+5] == b[p+5] && a[o+6] == b[p+6] && a[o+7] == b[p+7]
+//@ ensures be64(row(a), off(a)+o) == be64(row(b), off(b)+p) && be32(row(a), off(a)+o) == be32(row(b), off(b)+p)
+//@ end
+func lemmaBeFrame(a, b []byte, o, p int) {}
+
+//@ lemma lemmaFooterRoundTrip
+//@ tags [C04,C09]
+//@ inline persistFooter, (*Segment).loadConfig, (*CountHashWriter).Write
+//@ requires len(body) <= 0x1000000000000000
+//@ end
+func lemmaFooterRoundTrip(numDocs, stored, fields, sections, dv uint64, chunk, crc0 uint32, body []byte) {
+	sink := &verifSink{buf: body}
+	err := persistFooter(numDocs, stored, fields, sections, dv, chunk, crc0, sink)
+	verifAssert(err == nil)
+	verifAssert(len(sink.buf) == len(body)+FooterSize)
+	s := &Segment{mm: sink.buf}
+	err = s.loadConfig()
+	verifAssert(err == nil)
+	verifAssert(s.numDocs == numDocs)
+	verifAssert(s.storedIndexOffset == stored)
+	verifAssert(s.fieldsIndexOffset == fields)
+	verifAssert(s.sectionsIndexOffset == sections)
+	verifAssert(s.docValueOffset == dv)
+	verifAssert(s.chunkMode == chunk)
+	verifAssert(s.version == Version)
+	verifAssert(len(s.mem) == len(body))
+	// the CRC word continues the body's CRC over the seven footer fields that precede it
+	c := verifCrc64(crc0, numDocs)
+	c = verifCrc64(c, stored)
+	c = verifCrc64(c, fields)
+	c = verifCrc64(c, sections)
+	c = verifCrc64(c, dv)
+	c = verifCrc32(c, chunk)
+	c = verifCrc32(c, Version)
+	verifAssert(s.crc == c)
+}
+
+// verifCrc64 / verifCrc32: CRC-32 continued over the big-endian image of a value (spec twins of crc64v / crc32v).
+func verifCrc64(c uint32, v uint64) uint32 { return crc32.Update(c, crc32.IEEETable, verifBytesOf(v)) }
+func verifCrc32(c uint32, v uint32) uint32 { return crc32.Update(c, crc32.IEEETable, verifBytesOf(v)) }
+
+//@ func verifCrc64 returns (r)
+//@ trusted
+//@ modifies nothing
+//@ ensures r == crc64v(c, v)
+//@ end
+//@ func verifCrc32 returns (r)
+//@ trusted
+//@ modifies nothing
+//@ ensures r == crc32v(c, v)
+//@ end
+
+//@ lemma lemmaOneWrite
+//@ tags [C04]
+//@ requires len(body) <= 0x1000000000000000
+//@ end
+func lemmaOneWrite(v uint64, u uint32, body []byte) {
+	sink := &verifSink{buf: body}
+	n := len(body)
+	_ = binary.Write(sink, binary.BigEndian, v)
+	verifAssert(binary.BigEndian.Uint64(sink.buf[n:n+8]) == v)
+	_ = binary.Write(sink, binary.BigEndian, u)
+	_ = binary.Write(sink, binary.BigEndian, v+1)
+	verifAssert(binary.BigEndian.Uint64(sink.buf[n:n+8]) == v)
+}
